@@ -1741,7 +1741,33 @@ def gen_C20(rng, tier):
             elif r < 0.63: evs.append("dis")
             else: evs.append("upd")
         L.append("wr pid %d %s %s%s %s %s" % (rng.randint(-10 ** 6, 10 ** 6), mkstate(rng), rng.choice("PVA"), mkf(rng), K9(rng), " ".join(evs)))
+    # the wrapper's terminal FOLLOWS scripted getters: `update_terminals()?` runs first (actuator) / right after the inner update (encoder);
+    # a follower error ends the update before anything is handed over / written, a present value is handed over / overwritten
+    for _ in range(n_of(tier, 150, 1200)):
+        for kind in ("act", "enc"):
+            evs = []
+            t = rng.randint(0, 10 ** 6)
+            for _ in range(rng.randint(3, 24)):
+                r = rng.random()
+                t += rng.randint(1, 10 ** 6)
+                if r < 0.16: evs.append("tgs:" + out_datum(rng, "s", t))
+                elif r < 0.32: evs.append("tgc:" + out_datum(rng, "c", t))
+                elif r < 0.42: evs.append(rng.choice(["tfs", "tfc"]))
+                elif r < 0.46: evs.append(rng.choice(["tnfs", "tnfc"]))
+                elif r < 0.54: evs.append("xs:" + datum_state(rng, t))
+                elif r < 0.60: evs.append("xc:" + datum_cmd(rng, t))
+                elif r < 0.66: evs.append("iu:" + rng.choice(["ok", "ok", "E5", "EN"]))
+                elif r < 0.72 and kind == "act": evs.append("acc:" + rng.choice(["ok", "ok", "E4"]))
+                elif r < 0.72: evs.append("gs:" + rng.choice([out_some(t, mkstate(rng)), "N", "E1"]))
+                else: evs.append("upd")
+            L.append("wr %s tfs tfc %s upd" % (kind, " ".join(evs)))
     return L
+
+
+def wr_follows(case):
+    """the wrapper's terminal follows a getter somewhere in this line (then what it hands over is not what it saw before the update)"""
+    t = case.split(" ")
+    return t[0] == "wr" and ("tfs" in t or "tfc" in t)
 
 
 # =========================================================================== C15
@@ -2326,6 +2352,8 @@ def project_C20(case, line):
     """wrappers: keep what is the wrapper's own doing (return values, whether the inner update ran, the own state slot written by
     the encoder wrapper); what the terminal sees (C09) and the PID numerics (C11) are compared by the relay oracle instead"""
     t = case.split(" ")
+    if wr_follows(case):
+        return line
     if t[:2] == ["wr", "act"]:
         out = []
         for tok in line.split(" "):
@@ -2361,6 +2389,8 @@ def oracle_C20(lines, impl):
             if "PANIC" in o:
                 bad.append((c, "wrapper update panicked: " + o.split(" ")[-1]))
             continue
+        if wr_follows(c):
+            continue        # compared with the model in full instead (project_C20 keeps every field of such lines)
         toks = o.split(" ")
         if t[:2] == ["wr", "act"]:
             for tok in toks:
